@@ -548,6 +548,19 @@ class ArrayBase(ParsableBase, MutableSequence, Serializable):
     def append(self, value):
         self.insert(len(self._items), value)
 
+    def extend(self, values):
+        self._replace_items(self._items + list(values))
+
+    def __iadd__(self, values):
+        self.extend(values)
+        return self
+
+    def clear(self):
+        self._replace_items([])
+
+    def reverse(self):
+        self._items.reverse()
+
     def _asdict(self):
         return self._items
 
